@@ -234,9 +234,21 @@ def create_table(
                 if itemset_type is LR_1 and not merge_states(
                     target_state, maybe_new_state
                 ):
-                    target_state = maybe_new_state
-                    state_queue.append(target_state)
-                    state_id += 1
+                    # Try to merge with the states previously split from
+                    # this kernel before splitting again. Otherwise, the same
+                    # split could be repeated forever.
+                    for other_state in chain(states, state_queue):
+                        if (
+                            other_state is not target_state
+                            and other_state == maybe_new_state
+                            and merge_states(other_state, maybe_new_state)
+                        ):
+                            target_state = other_state
+                            break
+                    else:
+                        target_state = maybe_new_state
+                        state_queue.append(target_state)
+                        state_id += 1
 
             # Create entries in GOTO and ACTION tables
             if isinstance(symbol, NonTerminal):
